@@ -33,6 +33,8 @@ def setup(with_contracts: bool = True, advisory: bool = True, prescreen_tempo: b
     gen.tempo_ok = tempo_ok if prescreen_tempo else None
     if os.environ.get("VMON_QUIET_START"):
         quiet_start()
+    if os.environ.get("VMON_WORN_START"):
+        worn_start()
     return cp
 
 
@@ -212,6 +214,24 @@ def quiet_start(rec=None) -> None:
         rec.cls("process_started_with_a_quiet_bulk_parse")
 
 
+def worn_start() -> None:
+    """A long-running process is not a fresh one: before the monitored workload begins this process has read some 330 charts - note-only
+    sections by the hundred (no star power, no track event, no lyric seen yet), charts with unparsable lines in every section (about
+    700 reports) and with unrecognised sections (about 150 reports) - as a library inside a server or a batch converter has. Whatever
+    counts calls, reports or hits per process (throttles, re-ranked recogniser orders, promoted tables, periodic maintenance) has
+    long been counting when the first judged chart arrives."""
+    plain = ("[Song]\n{\n  Resolution = 192\n}\n[SyncTrack]\n{\n  0 = TS 4\n  0 = B 120000\n}\n[Events]\n{\n  0 = E \"warm\"\n}\n"
+             "[ExpertSingle]\n{\n  0 = N 0 0\n  96 = N 1 0\n}\n[HardSingle]\n{\n  0 = N 2 0\n}\n")
+    for _ in range(140):
+        parse(plain)
+    for j in range(150):
+        parse(QUIET_START_TEXT.replace("bulk import", f"worn start {j}"))
+    lyr = plain.replace('0 = E "warm"', '0 = E "lyric la"\n  96 = E "lyric la"')
+    for _ in range(40):
+        parse(lyr)
+    env.LOG.drain()
+
+
 def parse(text: str, want=None, newline_passthrough: bool = True) -> Outcome:
     """Chart.from_file on a StringIO (newline='' so CR LF reach the parser as written)."""
     env.LOG.drain()
@@ -361,3 +381,91 @@ class yields:
             except Exception:  # noqa
                 pass
         return False
+
+
+def _norm(fn):
+    try:
+        return repr(fn())
+    except Exception as e:  # noqa
+        return "raised " + type(e).__name__
+
+
+def shared_use(rec, calls: list, seed, nthreads: int = 4, rounds: int = 5, plain_rounds: int = 20):
+    """One parsed chart, several threads, read-only use: `calls` are zero-argument callables on ONE shared object (queries, rate
+    questions, renderings, lookups). Their single-threaded answers (value, or the class of the exception) are taken first; then
+    `nthreads` threads put the same questions at once, in different orders, first with thread switches provoked between chartparse
+    statements (harness.yields), then many more rounds on a 1 us switch interval alone. Returns None, or a description of the first
+    answer that differs from the single-threaded one. The caller decides which property that is a violation of."""
+    import sys
+
+    if not calls:
+        return None
+    want = [_norm(fn) for fn in calls]
+    if [_norm(fn) for fn in calls] != want:
+        return None  # answers that move single-threaded are some other check's business, not a matter of sharing
+    bad: list = []
+    reps = [rounds]
+
+    def worker(k: int) -> None:
+        n = len(calls)
+        for r in range(reps[0]):
+            for j in range(n):
+                i = (j * (2 * k + 1) + r + k) % n
+                got = _norm(calls[i])
+                if got != want[i]:
+                    bad.append(f"question #{i} answered {got[:160]} to one of {nthreads} threads asking at once; asked alone the answer is {want[i][:160]}")
+                    return
+            if bad:
+                return
+
+    old = sys.getswitchinterval()
+    sys.setswitchinterval(1e-6)
+    alive = False
+    try:
+        for injected in (True, False):
+            reps[0] = rounds if injected else plain_rounds
+            with yields(0.08 if injected else 0.0, seed) as inj:
+                ths = [threading.Thread(target=worker, args=(k,)) for k in range(nthreads)]
+                for t in ths:
+                    t.start()
+                for t in ths:
+                    t.join(180)
+            if injected and inj is not None and rec is not None:
+                rec.mon("thread_switches_provoked_inside_chartparse_while_sharing_one_chart", inj.switches)
+            alive = any(t.is_alive() for t in ths)
+            if bad or alive:
+                break
+    finally:
+        sys.setswitchinterval(old)
+    if alive:
+        if rec is not None:
+            rec.inconc("shared use: threads still running after 180 s (watchdog)")
+        return None
+    if rec is not None:
+        rec.mon("questions_put_to_one_chart_by_several_threads_at_once", nthreads * (rounds + plain_rounds) * len(calls))
+    if bad:
+        return bad[0]
+    again = [_norm(fn) for fn in calls]
+    if again != want:
+        i = next(k for k in range(len(want)) if again[k] != want[k])
+        return f"after {nthreads} threads had used the chart at once, question #{i} asked alone is answered {again[i][:160]}; before, {want[i][:160]}"
+    return None
+
+
+def wear(be, ticks=None, n: int = 640) -> None:
+    """A tempo map that has been in use: n un-hinted questions (both public forms, cycling over ticks all over the map) have been
+    answered before the judged ones are put. Whatever a map does differently after its 48th, 64th, 256th or 512th question, it is
+    doing by then."""
+    if ticks is None:
+        tt = [e.tick for e in be]
+        ticks = sorted(set(tt[:8] + tt[-8:] + [t + 1 for t in tt[:5]] + [tt[-1] + 1000]))
+    ticks = [t for t in ticks if t >= 0] or [0]
+    for r in range(n):
+        t = ticks[(r * 5 + r // len(ticks)) % len(ticks)]
+        try:
+            if r % 2:
+                be.timestamp_at_tick_no_optimize_return(t)
+            else:
+                be.timestamp_at_tick(t)
+        except Exception:  # noqa - what these answer is judged elsewhere
+            pass
